@@ -153,7 +153,11 @@ func ruleR15(c *Ctx, prop string) {
 							}
 						} else {
 							nSites++
-							c.violate("R15", key(f, "dyncall"), c.pos(x.Pos()), "call through a function value on the load path")
+							// a function value of the library's own (a decoder picked from a table, a callback handed to a
+							// helper): fine when it cannot be nil and every function it may stand for is library code, which
+							// this rule walks as well
+							okDyn, whyDyn := c.dynCallSafe(x, b)
+							c.decide(okDyn, "R15", key(f, "dyncall"), c.pos(x.Pos()), "the function value is never nil and stands for library functions only (walked by this rule)", "call through a function value on the load path: "+whyDyn)
 						}
 						continue
 					}
@@ -657,4 +661,149 @@ func (c *Ctx) lowSlack(x, low ssa.Value, b *ssa.BasicBlock) int64 {
 		}
 	}
 	return best
+}
+
+// dynCallSafe: the called function value is provably non-nil and the call graph resolves it to library functions.
+func (c *Ctx) dynCallSafe(call *ssa.Call, b *ssa.BasicBlock) (bool, string) {
+	if !c.fnValueNonNil(call.Common().Value, b, 0) {
+		return false, "the function value may be nil"
+	}
+	n := 0
+	if node := c.cg.Nodes[call.Parent()]; node != nil {
+		for _, e := range node.Out {
+			if e.Site == ssa.CallInstruction(call) {
+				n++
+				if !isLibFn(e.Callee.Func) {
+					return false, "it may stand for " + fname(e.Callee.Func)
+				}
+			}
+		}
+	}
+	if n == 0 {
+		return false, "the call graph resolves it to nothing"
+	}
+	return true, ""
+}
+
+func (c *Ctx) fnValueNonNil(v ssa.Value, b *ssa.BasicBlock, depth int) bool {
+	if depth > 5 {
+		return false
+	}
+	switch x := v.(type) {
+	case *ssa.Function, *ssa.MakeClosure:
+		return true
+	case *ssa.ChangeType:
+		return c.fnValueNonNil(x.X, b, depth+1)
+	case *ssa.MakeInterface:
+		return c.fnValueNonNil(x.X, b, depth+1)
+	case *ssa.Phi:
+		for _, e := range x.Edges {
+			if !c.fnValueNonNil(e, b, depth+1) {
+				return false
+			}
+		}
+		return len(x.Edges) > 0
+	case *ssa.Call:
+		f := x.Common().StaticCallee()
+		if f == nil || !isLibFn(f) || len(f.Blocks) == 0 || f.Signature.Results().Len() != 1 {
+			return false
+		}
+		for _, r := range returnsOf(f) {
+			if !c.fnValueNonNil(r.Results[0], r.Block(), depth+1) {
+				return false
+			}
+		}
+		return true
+	case *ssa.Parameter:
+		f := x.Parent()
+		idx := -1
+		for i, p := range f.Params {
+			if p == x {
+				idx = i
+			}
+		}
+		n := 0
+		for _, g := range c.libFns {
+			for _, bb := range g.Blocks {
+				for _, in := range bb.Instrs {
+					cl, ok := in.(*ssa.Call)
+					if !ok || cl.Common().StaticCallee() != f {
+						continue
+					}
+					n++
+					if idx < 0 || idx >= len(cl.Common().Args) || !c.fnValueNonNil(cl.Common().Args[idx], bb, depth+1) {
+						return false
+					}
+				}
+			}
+		}
+		return n > 0 && (f.Object() == nil || !f.Object().Exported())
+	case *ssa.FreeVar:
+		f := x.Parent()
+		idx := -1
+		for i, fv := range f.FreeVars {
+			if fv == x {
+				idx = i
+			}
+		}
+		n := 0
+		for _, g := range c.libFns {
+			for _, bb := range g.Blocks {
+				for _, in := range bb.Instrs {
+					mc, ok := in.(*ssa.MakeClosure)
+					if !ok || mc.Fn != ssa.Value(f) {
+						continue
+					}
+					n++
+					if idx < 0 || idx >= len(mc.Bindings) || !c.fnValueNonNil(mc.Bindings[idx], bb, depth+1) {
+						return false
+					}
+				}
+			}
+		}
+		return n > 0
+	case *ssa.Extract:
+		lk, ok := x.Tuple.(*ssa.Lookup)
+		if !ok || !lk.CommaOk || x.Index != 0 || b == nil {
+			return false
+		}
+		hit := false
+		for val, truth := range boolFacts(b) {
+			if e2, ok := val.(*ssa.Extract); ok && e2.Tuple == lk && e2.Index == 1 && truth {
+				hit = true
+			}
+		}
+		ld, ok := lk.X.(*ssa.UnOp)
+		if !hit || !ok || !isLibGlobal(ld.X) {
+			return false
+		}
+		// every value the package initialiser puts into that table is a function
+		g := ld.X.(*ssa.Global)
+		init := g.Pkg.Func("init")
+		if init == nil {
+			return false
+		}
+		var mk ssa.Value
+		for _, bb := range init.Blocks {
+			for _, in := range bb.Instrs {
+				if st, ok := in.(*ssa.Store); ok && st.Addr == ssa.Value(g) {
+					mk = st.Val
+				}
+			}
+		}
+		if mk == nil {
+			return false
+		}
+		n := 0
+		for _, r := range *mk.Referrers() {
+			if mu, ok := r.(*ssa.MapUpdate); ok && mu.Map == mk {
+				n++
+				if !c.fnValueNonNil(mu.Value, mu.Block(), depth+1) {
+					return false
+				}
+			}
+		}
+		return n > 0
+	}
+	return false
 }
